@@ -425,7 +425,7 @@ impl WorldB {
                     }
                 }
             }
-            K_JUNK | K_MUTATE | K_REPLAY | K_FORGEREQ | K_FORGERESP | K_FORGESESS | K_TAMPER | K_TOKENSURGERY => self.adversary_op(op, obs),
+            K_JUNK | K_MUTATE | K_REPLAY | K_FORGEREQ | K_FORGERESP | K_FORGESESS | K_TAMPER | K_TOKENSURGERY | K_CROSSRESP => self.adversary_op(op, obs),
             _ => {}
         }
         for slot in 0..ns {
